@@ -364,6 +364,7 @@ func (p *parser) quant(forall bool) Expr {
 // ---------------------------------------------------------------- contract files
 
 type Clause struct {
+	Pkg  string
 	Tags []string
 	Expr Expr
 	Src  string
@@ -374,13 +375,21 @@ type Clause struct {
 type Param struct{ Name, Type string }
 
 type Pred struct {
+	Opaque bool
 	Name   string
 	Params []Param
 	Body   Expr
 	Src    string
 }
 
+type GhostUpdate struct {
+	Name string
+	Expr Expr
+	Src  string
+}
+
 type LoopContract struct {
+	Updates    []GhostUpdate
 	Invariants []Clause
 	Modifies   []Clause
 	Decreases  *Clause
@@ -399,22 +408,34 @@ type FuncContract struct {
 	Trusted  bool // contract assumed, body not verified
 	Pure     bool // result is a function of arguments (and read heap)
 	Safe     bool // prove absence of run-time panics too
+	Reveals  []string // opaque predicates whose definition this function's proof may use
+	NoFrame  bool // no frame promise: callers havoc everything; no frame obligations
 	Decreases *Clause
 	Lets     []Param // let name = expr (Type holds the expression source)
+	Ghosts   []Param // ghost name type
+	Inits    []GhostUpdate
+}
+
+type UFunc struct {
+	Name   string
+	Params []Param
+	Result string
 }
 
 type ContractSet struct {
+	UFuncs map[string]*UFunc
+	Axioms []Clause
 	Preds map[string]*Pred
 	Funcs map[string]*FuncContract // key: pkgpath + "::" + ssa name
 	Order []string
 }
 
 func NewContractSet() *ContractSet {
-	return &ContractSet{Preds: map[string]*Pred{}, Funcs: map[string]*FuncContract{}}
+	return &ContractSet{Preds: map[string]*Pred{}, Funcs: map[string]*FuncContract{}, UFuncs: map[string]*UFunc{}}
 }
 
 var clauseKeywords = map[string]bool{"pred": true, "func": true, "requires": true, "ensures": true, "loop": true,
-	"modifies": true, "trusted": true, "pure": true, "safe": true, "decreases": true, "let": true, "package": true}
+	"modifies": true, "ufunc": true, "axiom": true, "noframe": true, "opaque": true, "reveal": true, "trusted": true, "pure": true, "safe": true, "decreases": true, "let": true, "ghost": true, "init": true, "package": true}
 
 // ParseContractFile reads the //@ lines of one file.
 func (cs *ContractSet) ParseContractFile(path, pkgPath string) error {
@@ -476,10 +497,18 @@ func (cs *ContractSet) ParseContractFile(path, pkgPath string) error {
 			c.Expr = e
 			return c, nil
 		}
+		if kw == "opaque" {
+			// opaque pred name(...) = body
+			if len(fields) < 2 || fields[1] != "pred" {
+				return fmt.Errorf("%s:%d: 'opaque pred' expected", path, it.n)
+			}
+			kw = "opaquepred"
+			rest = strings.TrimSpace(rest[len("pred"):])
+		}
 		switch kw {
 		case "package":
 			pkgPath = rest
-		case "pred":
+		case "pred", "opaquepred":
 			eq := strings.Index(rest, "=")
 			lp := strings.Index(rest, "(")
 			if eq < 0 || lp < 0 || lp > eq {
@@ -504,7 +533,33 @@ func (cs *ContractSet) ParseContractFile(path, pkgPath string) error {
 			if err != nil {
 				return fmt.Errorf("%s:%d: %v", path, it.n, err)
 			}
-			cs.Preds[name] = &Pred{Name: name, Params: params, Body: body, Src: rest}
+			cs.Preds[name] = &Pred{Name: name, Params: params, Body: body, Src: rest, Opaque: kw == "opaquepred"}
+		case "ufunc":
+			lp := strings.Index(rest, "(")
+			rp := strings.LastIndex(rest, ")")
+			if lp < 0 || rp < lp {
+				return fmt.Errorf("%s:%d: bad ufunc", path, it.n)
+			}
+			uf := &UFunc{Name: strings.TrimSpace(rest[:lp]), Result: strings.TrimSpace(rest[rp+1:])}
+			for _, ps := range splitTop(rest[lp+1 : rp]) {
+				ps = strings.TrimSpace(ps)
+				if ps == "" {
+					continue
+				}
+				f := strings.Fields(ps)
+				if len(f) < 2 {
+					return fmt.Errorf("%s:%d: ufunc parameter needs a type", path, it.n)
+				}
+				uf.Params = append(uf.Params, Param{f[0], strings.Join(f[1:], "")})
+			}
+			cs.UFuncs[uf.Name] = uf
+		case "axiom":
+			c, err := mk(rest)
+			if err != nil {
+				return err
+			}
+			c.Pkg = pkgPath
+			cs.Axioms = append(cs.Axioms, c)
 		case "func":
 			cur = &FuncContract{Name: rest, Pkg: pkgPath, File: path, Line: it.n, Loops: map[int]*LoopContract{}}
 			key := pkgPath + "::" + rest
@@ -535,10 +590,29 @@ func (cs *ContractSet) ParseContractFile(path, pkgPath string) error {
 				}
 			case "trusted":
 				cur.Trusted = true
+			case "noframe":
+				cur.NoFrame = true
+			case "reveal":
+				cur.Reveals = append(cur.Reveals, strings.Fields(rest)...)
 			case "pure":
 				cur.Pure = true
 			case "safe":
 				cur.Safe = true
+			case "ghost":
+				if len(fields) < 3 {
+					return fmt.Errorf("%s:%d: ghost NAME TYPE", path, it.n)
+				}
+				cur.Ghosts = append(cur.Ghosts, Param{fields[1], strings.Join(fields[2:], "")})
+			case "init":
+				eq := strings.Index(rest, "=")
+				if eq < 0 {
+					return fmt.Errorf("%s:%d: bad init", path, it.n)
+				}
+				x, err := ParseExpr(rest[eq+1:])
+				if err != nil {
+					return fmt.Errorf("%s:%d: %v", path, it.n, err)
+				}
+				cur.Inits = append(cur.Inits, GhostUpdate{strings.TrimSpace(rest[:eq]), x, rest})
 			case "let":
 				eq := strings.Index(rest, "=")
 				if eq < 0 {
@@ -560,6 +634,19 @@ func (cs *ContractSet) ParseContractFile(path, pkgPath string) error {
 				}
 				sub := fields[2]
 				k := strings.Index(rest, sub)
+				if sub == "update" {
+					r2 := strings.TrimSpace(rest[k+len(sub):])
+					eq := strings.Index(r2, "=")
+					if eq < 0 {
+						return fmt.Errorf("%s:%d: bad update", path, it.n)
+					}
+					x, err := ParseExpr(r2[eq+1:])
+					if err != nil {
+						return fmt.Errorf("%s:%d: %v", path, it.n, err)
+					}
+					lc.Updates = append(lc.Updates, GhostUpdate{strings.TrimSpace(r2[:eq]), x, r2})
+					continue
+				}
 				c, err := mk(rest[k+len(sub):])
 				if err != nil {
 					return err
